@@ -406,11 +406,17 @@ def zeros_of(t, shapes=(), like=(), allow_empty=False):
     if not (isinstance(t, tuple) and t and t[0] == "ext"):
         return False
     kw = dict((k, (v[2] if isinstance(v, tuple) and len(v) == 3 and v[0] == "default" else v)) for k, v in t[3] if k != "$draw")      # a helper's keyword default is its value
-    if not set(kw) <= {"dtype"} or kw.get("dtype", FLOAT_DTYPES[0]) not in FLOAT_DTYPES:
+    pos = list(t[2])
+    if "shape" in kw and not pos:
+        pos = [kw.pop("shape")]                 # np.zeros(shape=n)
+    dt = kw.get("dtype", FLOAT_DTYPES[0])
+    if isinstance(dt, tuple) and len(dt) == 4 and dt[0] == "ext" and dt[1] == "numpy.dtype" and len(dt[2]) == 1 and not dt[3]:
+        dt = dt[2][0]                           # np.dtype(float) names the same type
+    if not set(kw) <= {"dtype"} or dt not in FLOAT_DTYPES:
         return False
     names = ("numpy.zeros",) + (("numpy.empty",) if allow_empty else ())
-    if t[1] in names and len(t[2]) == 1:
-        return _shape_norm(t[2][0]) in [_shape_norm(s_) for s_ in shapes]
+    if t[1] in names and len(pos) == 1:
+        return _shape_norm(pos[0]) in [_shape_norm(s_) for s_ in shapes]
     if t[1] == "numpy.zeros_like" and len(t[2]) == 1:
         return t[2][0] in like
     return False
